@@ -31,9 +31,10 @@ CONFIGS = {
                          ("ControllerMC_crash3.cfg", "edges"), ("ControllerMC_prefer.cfg", "edges"), ("ControllerMC_share.cfg", "edges"),
                          ("ControllerMC_stable_sim.cfg", "sim")]},
     "C06": {"quick": [("ControllerMC_crash.cfg", "edges"), ("ControllerMC_crash3.cfg", "edges"), ("ControllerMC_fault.cfg", "edges"),
-                      ("ControllerMC_crashfault.cfg", "edges"), ("ControllerMC_preferfault.cfg", "edges")],
+                      ("ControllerMC_crashfault.cfg", "edges"), ("ControllerMC_preferfault.cfg", "edges"),
+                      ("ControllerMC_crashfault3.cfg", "edges")],
             "thorough": [("ControllerMC_crash.cfg", "edges"), ("ControllerMC_crash3.cfg", "edges"), ("ControllerMC_fault.cfg", "edges"),
-                         ("ControllerMC_preferfault.cfg", "edges"),
+                         ("ControllerMC_preferfault.cfg", "edges"), ("ControllerMC_crashfault3.cfg", "edges"),
                          ("ControllerMC_crashfault.cfg", "edges"), ("ControllerMC_stale.cfg", "edges"),
                          ("ControllerMC_crash_sim.cfg", "sim"), ("ControllerMC_stale_sim.cfg", "sim")]},
     "C07": {"quick": [("ControllerMC_starve.cfg", "edges"), ("ControllerMC_fault.cfg", "edges"), ("ControllerMC_prefer.cfg", "edges")],
